@@ -3349,3 +3349,106 @@ func (c *Ctx) sliceLiteralDerives(v ssa.Value, src ssa.Value, depth int) bool {
 	}
 	return false
 }
+
+// MEMO (C02): a memo table answers from the key alone. Where a function looks a key up in a map that outlives
+// the call (a field, a captured variable, a parameter, a package-level variable), returns the hit, and otherwise
+// computes a value and stores it under the same key, everything the computed value depends on must be something
+// the key depends on too (or the holder of the table). A value that also depends on another parameter - the
+// environment a file is read in, the path a text is converted for, a lookup function - is remembered for the
+// first caller and handed to the others: the result then depends on who came first (map order, visit order,
+// earlier loads).
+func (c *Ctx) MEMO(rule string) []report.Obligation {
+	var out []report.Obligation
+	n := 0
+	for _, fn := range c.P.Funcs {
+		if strings.HasPrefix(c.P.FuncID(fn), "types.deriveDeepCopy") {
+			continue
+		}
+		for _, b := range fn.Blocks {
+			for _, in := range b.Instrs {
+				lk, ok := in.(*ssa.Lookup)
+				if !ok || !lk.CommaOk {
+					continue
+				}
+				if _, isMap := lk.X.Type().Underlying().(*types.Map); !isMap || isFreshMap(lk.X, 4) {
+					continue
+				}
+				// the store under the same key on the miss side
+				for _, b2 := range fn.Blocks {
+					for _, in2 := range b2.Instrs {
+						mu, ok := in2.(*ssa.MapUpdate)
+						if !ok || !sameMapVal(mu.Map, lk.X) || !sameKey(mu.Key, lk.Index) {
+							continue
+						}
+						miss := factHolds(b2, func(cond ssa.Value, val bool) bool {
+							ex, isE := cond.(*ssa.Extract)
+							return isE && ex.Tuple == ssa.Value(lk) && ex.Index == 1 && !val
+						})
+						if !miss {
+							continue
+						}
+						if _, isConst := stripMI(mu.Value).(*ssa.Const); isConst {
+							continue // a set of visited keys
+						}
+						n++
+						keyDeps := map[ssa.Value]bool{}
+						c.rootsOf(lk.Index, keyDeps, map[ssa.Value]bool{}, 12)
+						c.rootsOf(lk.X, keyDeps, map[ssa.Value]bool{}, 12) // the holder of the table
+						valDeps := map[ssa.Value]bool{}
+						c.rootsOf(mu.Value, valDeps, map[ssa.Value]bool{}, 12)
+						var extra []string
+						for r := range valDeps {
+							if !keyDeps[r] {
+								extra = append(extra, c.P.KeyTerm(r, 2))
+							}
+						}
+						sort.Strings(extra)
+						out = append(out, verdict(len(extra) == 0, rule, c.P.FuncID(fn)+" :: memo on "+c.P.KeyTerm(lk.X, 3)+" answers from its key alone", c.P.InstrPos(mu),
+							"the remembered value depends on nothing the key does not depend on", "the value remembered under the key also depends on "+strings.Join(extra, ", ")+": it is computed for the first caller and handed to later callers for which it would be different, so the result depends on who asked first"))
+					}
+				}
+			}
+		}
+	}
+	out = append(out, report.Obligation{Rule: rule, Key: "inventory", Status: report.Discharged, Why: fmt.Sprintf("%d lookup-miss-store memo tables in the module", n)})
+	return out
+}
+
+func stripMI(v ssa.Value) ssa.Value {
+	if mi, ok := v.(*ssa.MakeInterface); ok {
+		return mi.X
+	}
+	return v
+}
+
+// rootsOf collects the parameters, free variables and package-level variables a value is computed from.
+func (c *Ctx) rootsOf(v ssa.Value, out, seen map[ssa.Value]bool, depth int) {
+	if v == nil || depth == 0 || seen[v] {
+		return
+	}
+	seen[v] = true
+	switch x := v.(type) {
+	case *ssa.Parameter, *ssa.FreeVar, *ssa.Global:
+		out[v] = true
+		return
+	case *ssa.Const, *ssa.Function, *ssa.Builtin:
+		return
+	case *ssa.Alloc:
+		// a local: what is stored into it
+		for _, r := range *x.Referrers() {
+			if st, ok := r.(*ssa.Store); ok && st.Addr == ssa.Value(x) {
+				c.rootsOf(st.Val, out, seen, depth-1)
+			}
+		}
+		return
+	}
+	in, ok := v.(ssa.Instruction)
+	if !ok {
+		return
+	}
+	for _, op := range in.Operands(nil) {
+		if *op != nil {
+			c.rootsOf(*op, out, seen, depth-1)
+		}
+	}
+}
